@@ -72,8 +72,84 @@ class C12(Check):
         # dedicated malformed-filter cases on empty and non-empty tables
         for j, (name, _f) in enumerate(gen.MALFORMED_FILTERS):
             yield {"malformed": name, "seed": seed}
+        # history independence: literals that are ==-equal in Python but differ for the engine, in several orders
+        for k in range(2 if tier == "quick" else 8):
+            yield {"sequence": k, "seed": seed}
 
     # ------------------------------------------------------------------
+    def _sequence(self, case: Any, res: CaseResult) -> None:
+        """The outcome of a filter (rows or error) must not depend on the filters the process issued before:
+        the same list is run in 4 orders, each in a fresh process, and compared filter by filter."""
+        import json
+        import os
+        import subprocess
+        import sys
+        from pathlib import Path
+
+        import datashard as ds
+
+        rng = rng_for(case["seed"], "c12seq", case["sequence"])
+        fields = [{"id": 1, "name": "rid", "type": "long", "required": True},
+                  {"id": 2, "name": "i", "type": "long", "required": False},
+                  {"id": 3, "name": "b", "type": "boolean", "required": False},
+                  {"id": 4, "name": "f", "type": "double", "required": False},
+                  {"id": 5, "name": "s", "type": "string", "required": False}]
+        recs = []
+        rid = 0
+        for i in (0, 1, 2, None):
+            for b, f, sv in ((True, 0.0, "1"), (False, -0.0, "0"), (None, 1.0, None)):
+                rid += 1
+                recs.append({"rid": rid, "i": i, "b": b, "f": f, "s": sv})
+        classes = {"i": [1, True, 1.0, 0, False, 0.0, -0.0], "b": [True, 1, 1.0, False, 0], "f": [0.0, -0.0, 0, False, 1, 1.0, True],
+                   "s": ["1", 1, True, "0", 0]}
+        items: List[List[Any]] = []
+        for col, lits in classes.items():
+            for lit in lits:
+                for op in ("plain", "==", "!=", "<", ">="):
+                    items.append([len(items), col, op, lit])
+                items.append([len(items), col, "in", [lit]])
+                items.append([len(items), col, "in", [lit, 2 if col != "s" else "2"]])
+                items.append([len(items), col, "not_in", [lit]])
+        with Scratch("c12q") as d:
+            root = str(d / "t")
+            t = ds.create_table(root, schema=tables.schema_of(fields))
+            t.append_records(recs[:6])
+            t.append_records(recs[6:])
+            orders = [list(items), list(reversed(items))]
+            for _ in range(2):
+                o = list(items)
+                rng.shuffle(o)
+                orders.append(o)
+            outs = []
+            for k, order in enumerate(orders):
+                spec = str(d / f"order{k}.json")
+                json.dump(order, open(spec, "w"))
+                try:
+                    p = subprocess.run([sys.executable, "-m", "vf.procs.filterseq", root, spec], cwd=str(Path(__file__).resolve().parents[1]),
+                                       env=dict(os.environ, PYTHONHASHSEED="0"), capture_output=True, timeout=300)
+                except subprocess.TimeoutExpired:
+                    res.inconclusive.append("filter sequence child: watchdog fired")
+                    return
+                if p.returncode != 0 or not p.stdout:
+                    res.inconclusive.append(f"filter sequence child failed: {p.stderr.decode(errors='replace')[-300:]}")
+                    return
+                outs.append(json.loads(p.stdout.decode()))
+            for idx, col, op, val in items:
+                res.evals += 1
+                res.count("sequence_filters_compared")
+                got = [o[str(idx)] for o in outs]
+                if any(g != got[0] for g in got[1:]):
+                    k = next(j for j, g in enumerate(got) if g != got[0])
+                    pos = next(n for n, it in enumerate(orders[k]) if it[0] == idx)
+                    res.violation(f"filter-outcome-depends-on-history:{op}:{col}",
+                                  f"filter {{{col!r}: ({op!r}, {val!r})}} gives {got[0]} when the list is run forwards and "
+                                  f"{got[k]} in order #{k} (there preceded by {[it[1:] for it in orders[k][max(0, pos - 3):pos]]})",
+                                  {"case": case, "filter": [col, op, repr(val)], "outcomes": got})
+                    return
+                if got[0]["scan"][0] == "raise":
+                    res.count("sequence_filters_raising")
+                res.key(["seq", col, op, repr(val), got[0]["scan"][0]])
+
     def run_case(self, case: Any, res: CaseResult, tier: str) -> None:
         import datashard as ds
 
@@ -81,6 +157,8 @@ class C12(Check):
             return self._malformed(case, res)
         if "nanfocus" in case:
             return self._nanfocus(case, res)
+        if "sequence" in case:
+            return self._sequence(case, res)
         rng = rng_for(case["seed"], "c12", case["i"])
         fields = gen.gen_schema(rng)
         layout = gen.gen_layout(rng, fields, nan_p=rng.choice([0.0, 0.15, 0.4]),
